@@ -15,6 +15,7 @@ import random
 from harness import core, lex
 
 PROP = "C13"
+TRACE_MODULES = ["Trace_C13"]
 
 
 # ------------------------------------------------------------------ spellings (format only)
